@@ -50,3 +50,26 @@ def field (fs : List String) (k : String) : Option String :=
   fs.findSome? fun f => if f.startsWith (k ++ "=") then some ((f.drop (k.length + 1)).toString) else none
 
 end Prom
+
+namespace Prom
+/-- list of hex strings joined by ',' ("-" = empty list; "~" = empty string element) -/
+def parseHexList (s : String) : Option (List (List UInt8)) :=
+  if s == "-" then some [] else
+  (s.splitOn ",").mapM fun x => if x == "~" then some [] else parseHexBytes x
+
+def showHexElem (b : List UInt8) : String := if b.isEmpty then "~" else showHexBytes b
+def showHexList (l : List (List UInt8)) : String :=
+  if l.isEmpty then "-" else ",".intercalate (l.map showHexElem)
+
+/-- list of `k:v` pairs of hex strings -/
+def parseHexPairs (s : String) : Option (List (List UInt8 × List UInt8)) :=
+  if s == "-" then some [] else
+  (s.splitOn ",").mapM fun x => match x.splitOn ":" with
+    | [k, v] => match (if k == "~" then some [] else parseHexBytes k), (if v == "~" then some [] else parseHexBytes v) with
+      | some k, some v => some (k, v)
+      | _, _ => none
+    | _ => none
+
+def showHexPairs (l : List (List UInt8 × List UInt8)) : String :=
+  if l.isEmpty then "-" else ",".intercalate (l.map fun p => showHexElem p.1 ++ ":" ++ showHexElem p.2)
+end Prom
